@@ -137,6 +137,9 @@ def solve_fixed_point_steffensen(
             denom[abs(denom) == 0.0] = np.finfo(x0.dtype).eps
             x = x0 - (x1 - x0) ** 2 / denom
             error = norm(x - x0)
+            if not np.all(np.isfinite(x2)):
+                # Infinite second iterate gives zero update and so zero error
+                error = np.inf
             if error > divergence_tol or np.isnan(error):
                 msg = (
                     f"Fixed point iteration diverged on iteration {i}. "
